@@ -356,8 +356,9 @@ def run(ctx):
         if k["property"] == "C08" and g and g.get("kind") == "random-curve":
             f, nb = model_curve(g["model"], g["n"], g["bf"], g["depth"], g["pidx"], g["retract"], g["noise"], g["tilt"],
                                 g["seed"])
-            add({k_: v for k_, v in g.items() if k_ not in ("method", "factors")}, f + g["offset"], tr=False,
-                extra_tr=[("factor", a, 0.0) for a in g["factors"]])
+            add({k_: v for k_, v in g.items() if k_ not in ("method", "factors", "offsets")}, f + g["offset"], tr=False,
+                extra_tr=[("factor", a, 0.0) for a in g.get("factors", [])] +
+                         [("offset", 1.0, b__) for b__ in g.get("offsets", [])])
 
     # 1. accuracy grid (deterministic)
     for g in grid(ctx.tier):
